@@ -768,10 +768,29 @@ class FnTranslator:
         return Fix(lp, nil, cons, itobj, init)
 
     def none_type(self, nm, body, env, tbind, lp):
-        want = self.spec.get('none_types', {}).get(nm)
-        if want is None:
-            raise Problem('type of %s (None before the loop, assigned inside) is not in the table' % nm)
-        return want
+        """type T of a variable that is None before the loop and assigned inside it (it becomes an option T):
+        inferred from the assigned expressions (an `except .. as n` name is a unit; a may-raise call gives its value)"""
+        probe = dict(env)
+        probe.update(tbind)
+        for st in body:
+            for n in ast.walk(st):
+                if isinstance(n, ast.ExceptHandler) and n.name:
+                    probe[n.name] = (K('tt'), 'unit')
+        tys = set()
+        for st in body:
+            for n in ast.walk(st):
+                if isinstance(n, ast.Assign) and len(n.targets) == 1 and isinstance(n.targets[0], ast.Name) \
+                        and n.targets[0].id == nm:
+                    try:
+                        _, ty = self.expr(n.value, probe)
+                    except Problem as e:
+                        raise Problem('cannot type the assignment to %s inside the loop: %s' % (nm, e))
+                    if ty.startswith('opt:') and isinstance(n.value, ast.Call) and self.may_raise(n.value, probe):
+                        ty = ty[4:]
+                    tys.add(ty)
+        if len(tys) != 1:
+            raise Problem('type of %s (None before the loop, assigned inside) is not determined: %s' % (nm, sorted(tys)))
+        return OPT(tys.pop())
 
     # ------------------------------------------------------------ expressions
     def cond(self, n, env):
@@ -1265,7 +1284,7 @@ Definition gen_call_component (rq : request) (c : component) : option N :=
          params=[(V('R'), 'registry'), REQP, CTXP, (A('q_ctx_sro', [RQ]), 'ctxiface'), (A('q_view_name', [RQ]), 'viewname'),
                  (K('None'), NONE), (V('cls'), 'cls'), (('const', True), 'bool'), (K('None'), NONE)],
          defaults={5: 'None', 6: 'None', 7: 'True', 8: 'None'}, ret_conv=conv_result, catch=('PredicateMismatch',),
-         none_types={'pme': OPT('unit'), 'response': OPT('tag')}, **{'raise': {'<caught>': K('NotFoundPme')}}),
+         **{'raise': {'<caught>': K('NotFoundPme')}}),
 ]
 
 def _conv_make(obj, t):
